@@ -73,7 +73,7 @@ def floors(tier):
             "classes": {"self_loop": 200, "parallel_edges": 200, "parallel_diff_weight": 100, "zero_weight": 200,
                         "orient_two_way": 200, "orient_direct": 200, "orient_reverse": 200,
                         "unreachable_pair": 200, "isolated_node": 50, "tie": 100, "zero_distance_pair": 100,
-                        "cut_equal": 500, "cut_below_some": 500, "cut_above_all": 500, "cut_default": 500,
+                        "cut_equal": 500, "cut_below_some": 500, "cut_below_every_distance": 300, "cut_above_all": 500, "cut_default": 500,
                         "nodes_10_to_12": 50 if q else 500, "edges_25_to_40": 30 if q else 300,
                         "network_of_hundreds_of_nodes": 4, "edges_reweighted_in_place": 300, "cut_given_as_numpy.int64": 100,
                         "cut_given_as_numpy.float32": 100, "cut_given_as_int": 100},
@@ -96,6 +96,7 @@ def _all_cuts(D):
     for a, b in zip(ds, ds[1:]):
         cuts.append((a + b) / 2.0)
     cuts.append(ds[-1] + 0.5)
+    cuts.append(ds[0] - 0.5)            # below the smallest exact distance (0, a node to itself): nothing is within it
     return sorted(cuts)
 
 
@@ -109,6 +110,8 @@ def _some_cuts(rng, D):
         cuts.add(v)
     if rng.random() < 0.3:
         cuts.add(0)
+    if rng.random() < 0.2:
+        cuts.add(ds[0] - rng.choice([0.25, 0.5, 1.0]))
     return sorted(cuts)
 
 
@@ -200,6 +203,8 @@ def _cut_classes(cut, ds):
         out.append("cut_above_all")
     if cut == 0:
         out.append("cut_zero")
+    if all(d > cut for d in ds):
+        out.append("cut_below_every_distance")
     return out
 
 
